@@ -1437,7 +1437,7 @@ def modelfree_spec(p, j):
     if p["scenario"] == "vt_transfer":
         return _with_seed(dict({"kind": TL_KINDS[j % len(TL_KINDS)], "seed": p["base"] + 307 * j,
                                 "num_hp_per_task": [1, 2, 1, 3][(j // len(TL_KINDS) + j) % 4],
-                                "custom_rush_points": [0, 1, 0, 2, 0, 3, 0, 2][(j // len(TL_KINDS) + j) % 8],
+                                "custom_rush_points": [0, 1, 3, 2, 0, 3, 0, 2][(j // len(TL_KINDS) + j) % 8],
                                 "custom_dup": j % 2 == 0},
                                **(p.get("history_overrides") or {})), j)
     if p["scenario"] == "vt_hashmatrix":
